@@ -33,7 +33,7 @@ static const char *const poolName[NPOOL][2] = {   // [k][0]: canonical spelling,
     {"X-V", "x-v"},                                // extension header (linear search by name, case-insensitive)
 };
 
-static uint8_t low(uint8_t c) { return (c >= 'A' && c <= 'Z') ? c + 32 : c; }
+static uint8_t low(uint8_t c) { return (uint8_t)(c + ((uint8_t)((uint8_t)(c - 'A') < 26) << 5)); } // ASCII lower case, branch-free
 
 // Conservative reference reader of a Vary field value: is `name` certainly a member? Items are separated by commas outside
 // double quotes (a Vary member is a token and cannot contain a quote; a reader that pairs quotes is allowed to see one item
@@ -267,7 +267,7 @@ static const char *const none[] = { ABSENT, nullptr };
 // values: one fully symbolic byte in each request's nominated field (thorough: also b vs b"22"/b"2"b, the escaped forms)
 extern "C" void c13_value(void)
 {
-    static const char *const vary[] = { CS "x-" CS "v", T(nullptr, CS "accept-encodin" CS "g"), nullptr };
+    static const char *const vary[] = { "x-v", T(nullptr, CS "accept-encodin" CS "g"), nullptr };
     static const char *const a[] = { SYM, nullptr };
     static const char *const b[] = { SYM, T(nullptr, SYM "22"), nullptr };
     Family f = { vary, nullptr, { none, none, a }, { none, none, b } };
@@ -275,4 +275,130 @@ extern "C" void c13_value(void)
     if (vf_choose(2, "which")) { f.r1[0] = a; f.r2[0] = b; f.r1[2] = f.r2[2] = none; }
 #endif
     family(f);
+}
+
+// states: absent / empty / non-empty in both requests, two nominated fields (registered list header + extension header;
+// thorough: also the registered single-value header), one Vary line or two
+extern "C" void c13_states(void)
+{
+    static const char *const vary[] = { "accept-Encoding, X-v", "Accept-Encoding\nx-V", T(nullptr, "USER-agent,x-v"), nullptr };
+    static const char *const a1[] = { ABSENT, "q", nullptr };
+    static const char *const x1[] = { ABSENT, "", SYM, nullptr };
+    static const char *const a2[] = { ABSENT, "", "q", nullptr };
+    static const char *const x2[] = { ABSENT, "q", T(nullptr, ""), nullptr };
+    const Family f = { vary, nullptr, { a1, T(none, a1), x1 }, { a2, T(none, a2), x2 } };
+    family(f);
+}
+
+// names: order, repetition, case; the marker object R2 meets may carry another Vary than the stored variant (the origin
+// changed it in between)
+extern "C" void c13_names(void)
+{
+    // (a) symbolic case of one letter of the Vary (thorough: two), same Vary for the variant and the marker object
+    static const char *const cased[] = { CS "x-v, user-agent", "User-" CS "Agent," T("", CS) "x-v", T(nullptr, CS "x-v, X-" CS "V"), nullptr };
+    static const char *const q[] = { "q", nullptr }, *const aq[] = { ABSENT, "q", nullptr }, *const qr[] = { "q", "r", nullptr };
+    // (b) the marker object carries another Vary than the stored variant
+    static const char *const plain[] = { "x-v, User-Agent", "user-agent,X-V", "x-v, X-V", "X-v", T(nullptr, "user-agent"), T(nullptr, "x-v\nuser-agent"), nullptr };
+    static const char *const u[] = { ABSENT, "q", T(nullptr, SYM), nullptr };
+    static const char *const x[] = { ABSENT, "q", T(nullptr, "r"), nullptr };
+    Family f = { cased, nullptr, { none, aq, q }, { none, aq, qr } };
+    if (vf_choose(2, "which")) f = Family{ plain, plain, { none, u, x }, { none, x, u } };
+    family(f);
+}
+
+// a value that tries to continue the mark (quote, separator, the next name) or to look like an escaped value
+extern "C" void c13_inject(void)
+{
+    static const char *const v1[] = { "x-v, accept-encoding", nullptr };
+    static const char *const v2[] = { "x-v", nullptr };
+    static const char *const one[] = { "1", nullptr }, *const two[] = { "2", nullptr };
+    static const char *const inj[] = { "1" SYM ", accept-encoding=" T("\"", SYM) "2", nullptr };
+    static const char *const sp[] = { "\"", " ", "%", T(nullptr, "a"), nullptr };
+    static const char *const esc[] = { SYM "22", SYM "20", T(nullptr, SYM "25"), T(nullptr, "%" SYM "2"), nullptr };
+    static const char *const tail1[] = { "1\", x-v=\"2", nullptr }, *const three[] = { "3", nullptr };
+    static const char *const tail2[] = { "2" SYM ", x-v=\"3", nullptr };
+    static const char *const vv[] = { "accept-encoding, x-v", nullptr };
+    Family f = { v1, v2, { two, none, one }, { none, none, inj } };
+    switch (vf_choose(3, "which")) {
+    case 1: f = Family{ v2, nullptr, { none, none, sp }, { none, none, esc } }; break;
+    // same Vary, same names: a="1\", x-v=\"2" x="3"  against  a="1" x="2\", x-v=\"3"
+    case 2: f = Family{ vv, nullptr, { tail1, none, three }, { one, none, tail2 } }; break;
+    }
+    family(f);
+}
+
+// list syntax: two fully symbolic bytes (any but NUL, CR, LF) between two names / around '*'
+extern "C" void c13_list(void)
+{
+    static const char *const vary[] = { "accept-encoding" SYM SYM "x-v", "x-v" SYM "*", T(nullptr, "*" SYM "x-v"), T(nullptr, SYM "*" SYM), nullptr };
+    static const char *const a1[] = { "a", nullptr }, *const x1[] = { "b", nullptr };
+    static const char *const a2[] = { "a", "c", nullptr }, *const x2[] = { "b", "c", ABSENT, nullptr };
+    const Family f = { vary, nullptr, { a1, none, x1 }, { a2, none, x2 } };
+    family(f);
+}
+
+// ================================================================== K3
+int neighbors_do_private_keys = 0; // globals.cc is not linked; 0 = no peers configured (default)
+// recorders standing in for store.cc (not linked)
+static int madePublic, madeNegative, madePrivate;
+bool StoreEntry::makePublic(const KeyScope) { ++madePublic; return true; }
+bool StoreEntry::cacheNegatively() { ++madeNegative; return true; }
+void StoreEntry::makePrivate(const bool) { ++madePrivate; }
+bool StoreEntry::timestampsSet() { return true; } // the harness sets the entry times itself
+void StoreEntry::lock(const char *) {}
+int StoreEntry::unlock(const char *) { return 1; }
+StoreEntry *storeGetPublic(const char *, const HttpRequestMethod &) { return nullptr; }        // nothing cached for this URL yet
+StoreEntry *storeGetPublicByRequest(HttpRequest *, const KeyScope) { return nullptr; }
+
+extern "C" void c13_star(void)
+{
+    vf_quiet();
+    Config.minimum_expiry_time = 60;       // default
+    Config.maxStale = 604800;              // default max_stale 1 week
+    Config.Refresh = nullptr;              // no refresh_pattern line
+    Config.negativeTtl = 0;
+    squid_curtime = 1000000000;
+    static const char *const vary[] = { "*", "x-v, *", "*, x-v", "x-v\n*", "x-v" SYM "*", "*" SYM "x-v", T(nullptr, SYM "*" SYM), nullptr };
+    const Vary v = pickVary(vary, "vary");
+    HttpReply *rep = replyWith(v);
+    const unsigned status = vf_range(200, 410, "status");   // the statuses Squid caches without further ado, and 404
+    vf_assume(status == 200 || status == 203 || status == 300 || status == 301 || status == 410 || status == 404);
+    rep->sline.set(Http::ProtocolVersion(1, 1), static_cast<Http::StatusCode>(status));
+    rep->hdrCacheInit();
+
+    Req r1; r1.s[0].present = r1.s[1].present = false; r1.s[2] = pick((const char *const[]){ ABSENT, "q", nullptr }, "r1");
+    HttpRequest *req = request(r1, 0);
+    StoreEntry *entry = entryWith(rep, SBuf());
+    entry->flags = (1 << KEY_PRIVATE);     // a fresh private entry, received now, no explicit expiry
+    entry->timestamp = squid_curtime;
+    entry->expires = -1;
+    HttpStateData *hs = rawObject<HttpStateData>(); // zeroed raw memory (the constructor needs a FwdState and a connection)
+    hs->entry = entry;
+    rawPointer(hs->request, req);
+    hs->theFinalReply = rep;
+    madePublic = madeNegative = madePrivate = 0;
+
+    hs->HttpStateData::haveParsedReplyHeaders(); // qualified: the raw object has no vptr
+
+    const bool shared = madePublic || madeNegative;
+    const bool always = (entry->flags >> ENTRY_REVALIDATE_ALWAYS) & 1;
+    vf_observe("shared", shared); vf_observe("flags", entry->flags);
+    if (refMember(v.joined.b, v.joined.n, "*")) {
+        vf_assert(!shared || always, "a reply with Vary: * gets a public key only together with ENTRY_REVALIDATE_ALWAYS");
+        if (shared) {
+            vf_assert(isStar(entry->mem_obj->vary_headers), "its variant mark is '*'");
+            // a later request (any of the two spellings, nominated field present or not): after the VARY_* step cacheHit() asks
+            // refreshCheckHTTP() and serves from cache only if it answers 0
+            Req r2; r2.s[0].present = r2.s[1].present = false; r2.s[2] = pick((const char *const[]){ ABSENT, "q", nullptr }, "r2");
+            HttpRequest *later = request(r2, 1);
+            squid_curtime += vf_range(0, 1200, "later");
+            const int vary = varyEvaluateMatch(entry, later);
+            vf_assert(vary != VARY_NONE, "an entry with Vary is not taken for a non-varying one");
+            vf_assert(refreshCheckHTTP(entry, later) != 0, "a stored Vary: * reply is never fresh: cacheHit() must validate it with the origin");
+            vf_reach("star-stored");
+        } else
+            vf_reach("star-private");
+    } else
+        vf_reach("no-star");
+    WITNESS_POINT();
 }
